@@ -429,7 +429,10 @@ func runC20(ctx *harness.Ctx) {
 	})
 	ctx.Rapid("errors", ctx.Pick(6000, 80000), func(t *rapid.T) {
 		var src string
-		switch rapid.IntRange(0, 2).Draw(t, "kind") {
+		switch rapid.IntRange(0, 3).Draw(t, "kind") {
+		case 3:
+			vs := errorSiteVariants()
+			src = vs[rapid.IntRange(0, len(vs)-1).Draw(t, "error-site")]
 		case 0:
 			src = mutate.Soup(t, 24)
 		case 1:
